@@ -159,6 +159,10 @@ class timemodel(_coreiterative):
         for i in range(f.neq):
             f.data[i] += dt * self.residual[i]  # time can be scalar or np.array
 
+    def _reset_memory(self):
+        """forget data kept from previous steps (nothing for one step explicit methods)"""
+        pass
+
     def _check_end(self, stop):
         """
         """
@@ -231,6 +235,7 @@ class timemodel(_coreiterative):
             stop=None, flush=None, monitors={}, directives={}):
         """ """
         self.reset(itstart=0) # reset cputime and nit
+        self._reset_memory() # a new integration does not depend on previous ones
         self._remove_monitor_output(monitors)
         return self._solve(f, condition, tsave, stop, flush, monitors, directives)
 
@@ -238,6 +243,8 @@ class timemodel(_coreiterative):
             stop=None, flush=None, monitors={}, directives={}):
         """ """
         self.reset(itstart=max(f.it, 0)) # reset cputime and nit
+        if f is not getattr(self, 'Qn', None): # can only go on from final state of last integration
+            self._reset_memory()
         return self._solve(f, condition, tsave, stop, flush, monitors, directives)
 
     def _solve(self, f, condition, tsave, stop, flush, monitors, directives):
@@ -596,6 +603,10 @@ class implicitmodel(timemodel):
         """
         raise NotImplementedError("not implemented: virtual implicit class")
 
+    def _reset_memory(self):
+        """forget jacobian matrix kept for linear models"""
+        self.__dict__.pop("jacobian_use", None)
+
     def calc_jacobian(self, field, epsdiff=1.0e-6):
         """jacobian matrix dR/dQ of dQ/dt=R(Q) is computed as successive columns by finite difference of R(Q+dQ)
             ordering is ncell x neq (neq is the fast index)
@@ -720,6 +731,11 @@ class gear(trapezoidal):
     Returns:
 
     """
+
+    def _reset_memory(self):
+        """forget previous increment, next step starts integration"""
+        trapezoidal._reset_memory(self)
+        self.__dict__.pop("_lastresidual", None)
 
     def step(self, field, dtloc):
         """
